@@ -11,7 +11,9 @@ import (
 	"fmt"
 	"math/rand"
 	"os"
+	"reflect"
 	"runtime"
+	"sort"
 	"strings"
 	"sync"
 	"time"
@@ -34,6 +36,15 @@ type raceJob struct {
 	TransformE int            `json:"transform_e"` // number of failing services for it
 	SeqFirst   bool           `json:"seq_first"`   // run the loads alone BEFORE the concurrent phase (default: after, so that the
 	// concurrent loads hit a cold process: lazily filled package-level state is then first touched concurrently)
+	// round 7: the loads SHARE their input values by reference, as a caller does that prepares them once: per input ONE
+	// types.ConfigDetails (one []ConfigFile with file names only — Content and Config nil —, one WorkingDir) and ONE
+	// list of option functions, handed to every goroutine that loads that input; the environment map is the load's own
+	// unless ShareEnv.  No load of the shared values runs before the concurrent phase (cold), and afterwards the shared
+	// values must be what they were (raceOut.Mutated).
+	ShareInputs bool `json:"share_inputs,omitempty"`
+	// the project name of the request is passed as a guess (SetProjectName(name, false)), not imperatively: the loader
+	// then looks for `name:` in every config file (loader.projectName reads the files itself)
+	GuessName bool `json:"guess_name,omitempty"`
 	Trav *travCase `json:"trav,omitempty"` // round 6: ONLY the dependency-ordered traversal on an explicit graph (trav.go)
 }
 
@@ -52,6 +63,7 @@ type raceOut struct {
 	Panics         []string   `json:"panics"`
 	Loads          int        `json:"loads"`
 	TransformWrong []string   `json:"transform_wrong"`
+	Mutated        []string   `json:"mutated,omitempty"` // round 7: "<what>: <detail>" — a shared input value differs after the loads
 }
 
 // errClass: error texts are not compared (which of two services of a cycle is named first depends on Go's map
@@ -78,7 +90,7 @@ func outcome(p *types.Project, err error, root string) string {
 	return "ok:" + string(b)
 }
 
-func options(r core.LoadReq) func(o *loader.Options) {
+func options(r core.LoadReq, guess bool) func(o *loader.Options) {
 	return func(o *loader.Options) {
 		o.SkipValidation = r.SkipValidation
 		o.SkipInterpolation = r.SkipInterpolation
@@ -91,18 +103,18 @@ func options(r core.LoadReq) func(o *loader.Options) {
 		o.SkipDefaultValues = r.SkipDefaultValues
 		o.Profiles = r.Profiles
 		if r.ProjectName != "" {
-			o.SetProjectName(r.ProjectName, true)
+			o.SetProjectName(r.ProjectName, !guess)
 		}
 	}
 }
 
-func safeLoad(d types.ConfigDetails, r core.LoadReq, root string) (res string) {
+func safeLoad(d types.ConfigDetails, opts []func(*loader.Options), root string) (res string) {
 	defer func() {
 		if x := recover(); x != nil {
 			res = fmt.Sprintf("panic:%v", x)
 		}
 	}()
-	p, err := loader.LoadWithContext(context.Background(), d, options(r))
+	p, err := loader.LoadWithContext(context.Background(), d, opts...)
 	return outcome(p, err, root)
 }
 
@@ -160,8 +172,8 @@ func main() {
 	stable := make([]bool, len(job.Inputs))
 	alone := func() {
 		for i, in := range job.Inputs {
-			a := safeLoad(in.Details(roots[i]), in, roots[i])
-			b := safeLoad(in.Details(roots[i]), in, roots[i])
+			a := safeLoad(in.Details(roots[i]), []func(*loader.Options){options(in, job.GuessName)}, roots[i])
+			b := safeLoad(in.Details(roots[i]), []func(*loader.Options){options(in, job.GuessName)}, roots[i])
 			seq[i] = a
 			stable[i] = a == b
 			if !stable[i] {
@@ -185,6 +197,16 @@ func main() {
 			sharedEnv[k] = v
 		}
 	}
+	// round 7: the values shared by reference, built once, never loaded before the concurrent phase
+	sharedDet := make([]types.ConfigDetails, len(job.Inputs))
+	sharedOpts := make([][]func(*loader.Options), len(job.Inputs))
+	if job.ShareInputs {
+		for i, in := range job.Inputs {
+			sharedDet[i] = in.Details(roots[i])
+			sharedOpts[i] = []func(*loader.Options){options(in, job.GuessName)}
+		}
+	}
+	snap := snapshotShared(job, sharedDet, sharedOpts, sharedEnv)
 	var mu sync.Mutex
 	var wg sync.WaitGroup
 	type loadResult struct {
@@ -211,10 +233,17 @@ func main() {
 					time.Sleep(time.Duration(rng.Intn(200)) * time.Microsecond)
 				}
 				d := in.Details(roots[idx])
+				opts := []func(*loader.Options){options(in, job.GuessName)}
+				if job.ShareInputs {
+					own := d.Environment
+					d = sharedDet[idx] // a copy of the struct: the []ConfigFile backing array is the shared one
+					d.Environment = own
+					opts = sharedOpts[idx]
+				}
 				if job.ShareEnv {
 					d.Environment = sharedEnv
 				}
-				got := safeLoad(d, in, roots[idx])
+				got := safeLoad(d, opts, roots[idx])
 				mu.Lock()
 				out.Loads++
 				results = append(results, loadResult{g, r, idx, got})
@@ -364,6 +393,7 @@ func main() {
 	}
 	close(start)
 	wg.Wait()
+	out.Mutated = snap.diff(job, sharedDet, sharedOpts, sharedEnv)
 	if !job.SeqFirst {
 		alone()
 	}
@@ -379,4 +409,106 @@ func main() {
 	b, _ := json.Marshal(out)
 	os.Stdout.Write(b)
 	os.Stdout.Write([]byte("\n"))
+}
+
+// ---- round 7: input immutability. What the caller handed in (and other loads are reading) is compared with a deep
+// copy taken before the first load.
+
+type fileSnap struct {
+	Filename   string
+	ContentNil bool
+	Content    string
+	ConfigNil  bool
+	ConfigLen  int
+}
+
+type sharedSnap struct {
+	files [][]fileSnap
+	wd    []string
+	lens  [][2]int // len, cap of ConfigFiles
+	opts  [][]uintptr
+	env   map[string]string
+}
+
+func snapFiles(cfs []types.ConfigFile) []fileSnap {
+	var r []fileSnap
+	for _, f := range cfs {
+		r = append(r, fileSnap{f.Filename, f.Content == nil, string(f.Content), f.Config == nil, len(f.Config)})
+	}
+	return r
+}
+
+func optPtrs(fs []func(*loader.Options)) []uintptr {
+	var r []uintptr
+	for _, f := range fs {
+		r = append(r, reflect.ValueOf(f).Pointer())
+	}
+	return r
+}
+
+func snapshotShared(job raceJob, det []types.ConfigDetails, opts [][]func(*loader.Options), env map[string]string) sharedSnap {
+	s := sharedSnap{env: map[string]string{}}
+	for k, v := range env {
+		s.env[k] = v
+	}
+	if !job.ShareInputs {
+		return s
+	}
+	for i := range det {
+		s.files = append(s.files, snapFiles(det[i].ConfigFiles))
+		s.wd = append(s.wd, det[i].WorkingDir)
+		s.lens = append(s.lens, [2]int{len(det[i].ConfigFiles), cap(det[i].ConfigFiles)})
+		s.opts = append(s.opts, optPtrs(opts[i]))
+	}
+	return s
+}
+
+func (s sharedSnap) diff(job raceJob, det []types.ConfigDetails, opts [][]func(*loader.Options), env map[string]string) []string {
+	var m []string
+	if job.ShareInputs {
+		for i := range det {
+			now := snapFiles(det[i].ConfigFiles)
+			if len(now) != len(s.files[i]) || len(det[i].ConfigFiles) != s.lens[i][0] || cap(det[i].ConfigFiles) != s.lens[i][1] {
+				m = append(m, fmt.Sprintf("config-files: input %d: the list has %d entries (cap %d), had %d (cap %d)", i, len(now), cap(det[i].ConfigFiles), s.lens[i][0], s.lens[i][1]))
+				continue
+			}
+			for k := range now {
+				a, b := s.files[i][k], now[k]
+				switch {
+				case a.Filename != b.Filename:
+					m = append(m, fmt.Sprintf("config-files: input %d: ConfigFiles[%d].Filename changed", i, k))
+				case a.ContentNil != b.ContentNil || a.Content != b.Content:
+					m = append(m, fmt.Sprintf("config-files: input %d: ConfigFiles[%d].Content was nil=%v (%d bytes), is nil=%v (%d bytes) after the loads", i, k, a.ContentNil, len(a.Content), b.ContentNil, len(b.Content)))
+				case a.ConfigNil != b.ConfigNil || a.ConfigLen != b.ConfigLen:
+					m = append(m, fmt.Sprintf("config-files: input %d: ConfigFiles[%d].Config was nil=%v, is nil=%v (%d keys) after the loads", i, k, a.ConfigNil, b.ConfigNil, b.ConfigLen))
+				}
+			}
+			if det[i].WorkingDir != s.wd[i] {
+				m = append(m, fmt.Sprintf("working-dir: input %d", i))
+			}
+			if p := optPtrs(opts[i]); fmt.Sprint(p) != fmt.Sprint(s.opts[i]) {
+				m = append(m, fmt.Sprintf("options-list: input %d: the list of option functions was rewritten", i))
+			}
+		}
+	}
+	if job.ShareEnv {
+		var ch []string
+		for k, v := range env {
+			if old, ok := s.env[k]; !ok {
+				ch = append(ch, "+"+k)
+			} else if old != v {
+				ch = append(ch, "~"+k)
+			}
+		}
+		for k := range s.env {
+			if _, ok := env[k]; !ok {
+				ch = append(ch, "-"+k)
+			}
+		}
+		sort.Strings(ch)
+		if len(ch) > 0 {
+			m = append(m, "environment: "+strings.Join(ch, " "))
+		}
+	}
+	return m
 }
